@@ -2,7 +2,7 @@
 (* Judge for C04: signing/verification proceeds only under the algorithm named *)
 (* in the protected header; the key is never invoked otherwise; messages signed *)
 (* without external data carry the signer's algorithm inside the signed bytes.  *)
-EXTENDS CoseSystem, Json
+EXTENDS CoseSystem, Json, TraceKit
 Tr == ndJsonDeserialize("tr.ndjson")
 VARIABLE l
 
@@ -52,9 +52,9 @@ Fails(e) ==
                               NormHead(SignerProtOf(KindOf(e), m.out, 1)) # tb.xs[ProtPos(e)] THEN {"emitted-protected-differs-from-signed"} ELSE {}))
         ELSE {})
 
-TInit == l = 1
+TInit == l = 1 /\ KitInit
 TNext == /\ l <= Len(Tr) /\ l' = l + 1
-         /\ LET f == Fails(Tr[l]) IN f = {} \/ PrintT(<<"REJECT", l, f>>)
+         /\ Note(l, Fails(Tr[l]))
 TSpec == TInit /\ [][TNext]_l
-Accepted == TLCGet("stats").diameter - 1 = Len(Tr)
+Accepted == KitDone(Len(Tr))
 =============================================================================
